@@ -10,6 +10,8 @@ from .engine import VERIF, REPO, WORK
 DRIVERS = {
     # driver name -> (prelude file under /verif/replay, real sources to compile, include dirs)
     'arith': ('arith_prelude.h', ['smt/arith/rational.cpp', 'smt/arith/lin.cpp'], ['smt', 'smt/arith']),
+    'dl': ('dl_prelude.h', ['smt/sat_core.cpp', 'smt/clause.cpp', 'smt/constr.cpp', 'smt/theory.cpp', 'smt/sat_stack.cpp', 'smt/json/json.cpp', 'smt/arith/rational.cpp',
+                           'smt/arith/lin.cpp', 'smt/arith/dl/idl_theory.cpp'], ['smt', 'smt/arith', 'smt/arith/dl', 'smt/json']),
     'sat': ('sat_prelude.h', ['smt/sat_core.cpp', 'smt/clause.cpp', 'smt/constr.cpp', 'smt/theory.cpp', 'smt/sat_stack.cpp', 'smt/json/json.cpp'],
             ['smt', 'smt/arith', 'smt/json']),
 }
@@ -21,7 +23,7 @@ def run(job, fail):
     wd = os.path.join(WORK, 'replay', re.sub(r'\W+', '_', job.name))
     os.makedirs(wd, exist_ok=True)
     src = os.path.join(wd, 'replay.cpp')
-    defs = ' '.join('-D%s=%s' % (k, v) for k, v in sorted(job.defines.items()) if k.startswith('SPEC_'))
+    defs = ' '.join('-D%s=%s' % (k, v) for k, v in sorted(job.defines.items()) if k.startswith('SPEC_') or k.startswith('XT_'))
     with open(src, 'w') as f:
         f.write('#include "%s"\n' % prelude)
         f.write('int main(int argc, char **argv) {\n  xt_parse_slots(argc, argv);\n  bool ok = true; std::string observed, required;\n')
